@@ -13,9 +13,9 @@ EXPLANATION = (
     "the owner of the longest matching URI prefix ++ delimiter ++ u[len(prefix):]. Because record contents are "
     "symbolic, one shape covers every overlap lattice and every permutation of a concrete record list; incremental "
     "jobs additionally build the same converter through add_record from every split point, 'interleaved' jobs also query the converter between the additions.")
-BOUNDS = dict(records="<= 4 (quick <= 3)", uri_prefix_synonyms_per_record="<= 2", strings="unbounded length, full z3 alphabet",
+BOUNDS = dict(records="<= 5 (quick <= 3)", uri_prefix_synonyms_per_record="<= 2", strings="unbounded length, full z3 alphabet",
               delimiter="':' and an arbitrary non-empty symbolic string")
-OUTSIDE = ["more than 4 records or more than 2 URI-prefix synonyms per record", "non-strict converters",
+OUTSIDE = ["more than 5 records or more than 2 URI-prefix synonyms per record", "non-strict converters",
            "the pytrie implementation itself (modelled by its longest-prefix contract)"]
 ASSUMPTIONS = ["pytrie.StringTrie.longest_prefix_item returns the longest stored key that is a prefix (contract stub)",
                "pydantic validation modelled by the BaseModel stub; validator bodies are the real source",
@@ -43,6 +43,11 @@ def jobs(tier):
         J("incremental", [[0, 1], [0, 1], [0, 0]], False, 2400, shard=8)
         J("incremental", [[1, 1], [0, 1]], True, 1500, shard=6)
         J("interleaved", [[0, 1], [0, 1], [0, 0]], False, 2400, shard=8)
+        J("construct", [[0, 0]] * 5, False, 3000, shard=12)
+        J("construct", [[0, 1]] * 4, False, 3000, shard=12)
+        J("construct", [[0, 2], [0, 2]], True, 2400, shard=8)
+        J("construct", [[1, 1], [1, 1], [0, 1]], True, 3000, shard=10)
+        J("incremental", [[0, 0]] * 4, False, 3000, shard=10)
     return out
 
 
